@@ -29,6 +29,15 @@ CHECKS = {
  'C07': ('BX+HX', 'model_checking', 'exhaustive enumeration of rule subsets x tag sets and of tag-operation histories on real engines, compared with a set-algebra model and a tag-stripped reference engine',
    'All 512 subsets of a 9-rule pool x optimise x 8 tag sets; all sequences of <= 3 (quick) / 4 (thorough) of 28 tag/deserialize operations on 4 lists; tag_exists after every step, full battery at the end.',
    'The tag-stripped reference engine is built by the same crate (differential).', 'DESIGN §4 C07'),
+ 'C08': ('BX', 'model_checking', T_BX + 'differential between the original engine and the engine reloaded from its serialisation, field by field',
+   'All ordered lists of <= 2 (quick) / <= 3 (thorough) rules of an 84-rule alphabet (every network and cosmetic rule shape) x debug x optimise x list permission, serialised and loaded into three kinds of loader, compared on 398 queries (network under every tag subset, CSP, cosmetic, class/id).',
+   'Two format limitations are recorded as open known findings (removeparam rules and scriptlet permissions are not serialised); they are recognised only when the reloaded engine equals an engine built without those rules / with permission 0.', 'DESIGN §4 C08'),
+ 'C09': ('BX', 'model_checking', T_BX + 'byte equality of repeated, cross-thread and cross-process serialisations; reload fixpoint',
+   'Same lists as C08 plus 458 wide lists (>= 4 entries per internal container); every list is built and serialised 6 (quick) / 12 (thorough) times, once in a fresh thread and (every 16th list / every wide list) in a child process; every buffer is reloaded and re-serialised.',
+   'Inputs exhaustive to the bound; hash seeds of std HashMap are redrawn, not enumerable: exhaustive=false is reported for that dimension.', 'DESIGN §4 C09'),
+ 'C10': ('FX', 'fault_enumeration', 'exhaustive fault enumeration (every prefix, every single-bit flip, every structural-byte substitution, huge-length splices, header variants) of valid serialized buffers, each loaded in a child process under an allocation and time ceiling',
+   '4 (quick) / 12 (thorough) valid buffers; 52k / 139k faults; post-conditions: no panic or abort, bounded allocation, atomicity on error (battery + serialisation unchanged), usability on success (battery built from the buffer strings + re-serialisation).',
+   'Allocations <= 2 KiB are not counted towards the 64 MiB ceiling.', 'DESIGN §4 C10'),
  'C11': ('BX', 'model_checking', T_BX + 'totality (no panic) + differential (list vs list minus rejected lines; hosts line vs ||host^)',
    'Every string of <= 4 (quick) / 5 (thorough) symbols over a 22-symbol structural alphabet through all parser entry points, the single-edit neighbourhood of 145 real rule spellings, metadata cut-off alignments, line independence on all lists of <= 3/4 good+junk lines, hosts-format equivalence, rule-type options.',
    'css-validation feature is off, as in the baseline configuration.', 'DESIGN §4 C11'),
